@@ -247,6 +247,7 @@ def run_engine(hname, argv=None):
     t0 = time.time()
     from . import install
     home = install.fresh_home()
+    import osyris  # noqa: F401  -- imported once in the parent: osyris creates $HOME/.osyris on import (racy if 16 workers do it)
     H = load_harness(hname)
     configs = H.configs(tier)
     if "--only" in argv:
